@@ -24,7 +24,7 @@ TECHNIQUE = "deterministic simulation across interpreter processes with simulato
 RUNS = {"quick": 2, "thorough": 2}  # pre-histories per hash-seed slot
 HASHSEED_SLOTS = {"quick": 3, "thorough": 6}
 OPTIMIZE_SLOTS = {"quick": [2], "thorough": [2, 5]}  # hash-seed slots whose interpreter runs under `python -O` (asserts stripped)
-N_SERVERS = {"quick": 8, "thorough": 12}
+N_SERVERS = {"quick": 9, "thorough": 12}
 SAMPLE = {"quick": 1500, "thorough": 6000}
 JOB_TIMEOUT = 3000.0
 EXPECTED_TOTAL = 9 * 216 * 1008 * 3  # as the property states: 5,878,656
@@ -70,7 +70,9 @@ def _elements_valid(x) -> bool:
 def st_process(spec):
     import warnings
 
-    warnings.filterwarnings("ignore")
+    if not spec.get("strict_warnings"):
+        warnings.filterwarnings("ignore")
+    # else: the process was started with warnings turned into errors (`python -W error`): part of "in every process"
     import numpy as np
     from maze_dataset.tokenization import (
         AdjListTokenizers,
@@ -421,10 +423,15 @@ def st_module_history(spec):
 
 FRESH_CODE = r"""
 import sys, json, warnings
-warnings.filterwarnings('ignore')
+if not {strict!r}:
+    warnings.filterwarnings('ignore')
 sys.path.insert(0, {repo!r}); sys.path.insert(0, {verif!r})
 from mdsim.props import c15
-print('@@' + json.dumps(c15.st_process(json.loads({spec!r}))))
+try:
+    res = c15.st_process(json.loads({spec!r}))
+except Exception as e:  # e.g. a warning turned into an error inside a library call
+    res = dict(violations=[["C15.operation-raised", type(e).__name__ + ": " + str(e)[:200], None]], events=[["raised", type(e).__name__, str(e)[:120]]], stats=dict())
+print('@@' + json.dumps(res))
 """
 
 
@@ -434,8 +441,10 @@ def fresh_process(spec, hashseed, repo, optimize=False):
     env.pop("PYTHONOPTIMIZE", None)
     if optimize:
         env["PYTHONOPTIMIZE"] = "1"  # the twin interpreter runs under `python -O`
-    code = FRESH_CODE.format(repo=repo, verif=core.VERIF_DIR, spec=json.dumps(spec))
-    r = subprocess.run([core.PYTHON, "-c", code], capture_output=True, text=True, env=env, cwd="/tmp", timeout=2500)
+    strict = bool(spec.get("strict_warnings"))
+    code = FRESH_CODE.format(repo=repo, verif=core.VERIF_DIR, spec=json.dumps(spec), strict=strict)
+    env.pop("PYTHONWARNINGS", None)
+    r = subprocess.run([core.PYTHON] + (["-W", "error"] if strict else []) + ["-c", code], capture_output=True, text=True, env=env, cwd="/tmp", timeout=2500)
     for line in r.stdout.splitlines():
         if line.startswith("@@"):
             return json.loads(line[2:])
@@ -460,7 +469,7 @@ def run(spec: dict, ctx) -> dict:
     stats["pre_" + spec.get("pre", "none")] = 1
     if "fresh" in spec:
         os.makedirs(os.path.join(ctx.scratch, "fresh"), exist_ok=True)
-        r2 = fresh_process(dict(sp, scratch=os.path.join(ctx.scratch, "fresh"), pre=spec["fresh"].get("pre", "none")), spec["fresh"]["hashseed"], ctx.repo, optimize=bool(spec["fresh"].get("optimize")))
+        r2 = fresh_process(dict(sp, scratch=os.path.join(ctx.scratch, "fresh"), pre=spec["fresh"].get("pre", "none"), strict_warnings=bool(spec["fresh"].get("strict_warnings"))), spec["fresh"]["hashseed"], ctx.repo, optimize=bool(spec["fresh"].get("optimize")))
         stats["probe_fresh_interpreter"] = 1
         if r2["events"] != res["events"]:
             badent = next((a for a, b in zip(res["events"], r2["events"]) if a != b), None)
@@ -509,6 +518,8 @@ def gen_specs(rng: random.Random, tier: str, n: int) -> list[dict]:
     for slot in range(K):
         for j in range(n):
             specs.append({"seed": seed, "sample": SAMPLE[tier], "slot": slot, "pre": pres[(slot * n + j) % len(pres)], "group": 0, "full_digests": tier == "thorough"})
+    # one run whose twin lives in a fresh interpreter started with warnings turned into errors (`python -W error`)
+    specs.append({"seed": seed, "sample": SAMPLE[tier] // 3, "slot": 1, "pre": "none", "group": None, "full_digests": False, "fresh": {"hashseed": rng.randrange(1, 2**32 - 1), "pre": "none", "strict_warnings": True}})
     # histories on the memoised module-level enumeration (2.6 GB and ~2.5 min each: one process in the quick tier, one per
     # hash-seed slot - compared with each other - in the thorough tier)
     for slot in range(1 if tier == "quick" else K):
